@@ -1,6 +1,6 @@
 import Pymc.Proofs.ExchangeCall
 /-! Helper lemmas for C01: every public operation is one of five shapes (no exchange at all, a store
-exchange, a misc exchange, a fetch exchange, `quit`) followed by post-processing. -/
+exchange, a misc exchange, a fetch exchange, `quit`, `shutdown`) followed by post-processing. -/
 namespace Client
 open Bytes Readers Wire Framing Exchange
 
@@ -54,6 +54,37 @@ theorem mapOut_early {α β} (e : Exc) (so : Bool) (sc : Script) (f : α → Exc
     mapOut (early e so sc : CallOut α) f = ⟨.error e, so, false, none, sc.evs⟩ := by
   simp [mapOut, early]
 
+/-! ## `swallowClose` (the `try … except MemcacheUnexpectedCloseError: pass` of `shutdown`) -/
+@[simp] theorem swallowClose_sockOpen (o : CallOut Res) : (swallowClose o).sockOpen = o.sockOpen := rfl
+@[simp] theorem swallowClose_unread (o : CallOut Res) : (swallowClose o).unread = o.unread := rfl
+@[simp] theorem swallowClose_sent (o : CallOut Res) : (swallowClose o).sent = o.sent := rfl
+@[simp] theorem swallowClose_connected (o : CallOut Res) : (swallowClose o).connected = o.connected := rfl
+theorem swallowClose_with_unread (o : CallOut Res) (u : List Ev) :
+    swallowClose { o with unread := u } = { swallowClose o with unread := u } := rfl
+theorem swallowClose_with_connected (o : CallOut Res) (b : Bool) :
+    swallowClose { o with connected := b } = { swallowClose o with connected := b } := rfl
+theorem swallowClose_res_ok (o : CallOut Res) {a : Res} (h : o.res = .ok a) : (swallowClose o).res = .ok a := by
+  simp [swallowClose, h]
+/-- what `swallowClose` makes of an exception: `MemcacheUnexpectedCloseError` becomes `None`, the others stay -/
+theorem swallowClose_res_error (o : CallOut Res) {e : Exc} (h : o.res = .error e) :
+    (swallowClose o).res = if e = .unexpectedClose then .ok .none else .error e := by
+  simp only [swallowClose, h]
+  cases e <;> simp
+/-- `shutdown` is a misc exchange of one command that waits for one line, wrapped in `swallowClose` -/
+theorem call_shutdown (cfg : Cfg) (ie so : Bool) (g : Bool) (sc : Script) :
+    call cfg ie so (.shutdown g) sc =
+      swallowClose (mapOut (exchangeMisc [shutdownCmd g] false none so sc) fun _ => .ok .none) := rfl
+theorem shutdown_res_ok (cfg : Cfg) (ie so : Bool) (g : Bool) (sc : Script) {r : List Bytes}
+    (hx : (exchangeMisc [shutdownCmd g] false none so sc).res = .ok r) :
+    (call cfg ie so (.shutdown g) sc).res = .ok .none := by
+  rw [call_shutdown]
+  exact swallowClose_res_ok _ (mapOut_res_ok _ (fun _ => (.ok .none : Except Exc Res)) hx)
+theorem shutdown_res_error (cfg : Cfg) (ie so : Bool) (g : Bool) (sc : Script) {e : Exc}
+    (hx : (exchangeMisc [shutdownCmd g] false none so sc).res = .error e) :
+    (call cfg ie so (.shutdown g) sc).res = if e = .unexpectedClose then .ok .none else .error e := by
+  rw [call_shutdown]
+  exact swallowClose_res_error _ (mapOut_res_error _ (fun _ => (.ok .none : Except Exc Res)) hx)
+
 /-! ## shapes -/
 
 /-- the `cas` argument check at the head of `Client.call (.store …)` -/
@@ -88,6 +119,7 @@ inductive Shape (cfg : Cfg) (c : Call) : Prop
         mapOut (exchangeFetch kind cmd wanted ie so sc) fun r => .ok (g r))
       (howed : owed cfg c = .fetch kind)
   | quit (hc : c = .quit)
+  | shutdown (g : Bool) (hc : c = .shutdown g)      -- `call_shutdown`
 
 theorem sends_of_silent {cfg c res}
     (hcall : ∀ ie so sc, call cfg ie so c sc = ⟨res, so, false, none, sc.evs⟩) : sends cfg c = false := by
@@ -100,6 +132,10 @@ theorem sends_of_misc {cfg c cmds nr tok f}
     (hcall : ∀ ie so sc, call cfg ie so c sc = mapOut (exchangeMisc cmds nr tok so sc) f) :
     sends cfg c = true := by
   simp [sends, hcall, exchangeMisc_probe]
+theorem sends_shutdown (cfg : Cfg) (g : Bool) : sends cfg (.shutdown g) = true := by
+  simp [sends, call_shutdown, exchangeMisc_probe]
+theorem owed_shutdown (cfg : Cfg) (g : Bool) : owed cfg (.shutdown g) = .lines 1 := by
+  simp [owed, sends_shutdown, effNoreply]
 theorem sends_of_fetch {cfg c kind cmd wanted} {g : List FetchEntry → Except Exc Res}
     (hcall : ∀ ie so sc, call cfg ie so c sc = mapOut (exchangeFetch kind cmd wanted ie so sc) g) :
     sends cfg c = true := by
